@@ -35,12 +35,12 @@ CHECKS = {
     "C04": C("custom HIR rules: dispatch/pairing tables (K4), who-compares-qualified-names (K1), raw-slice taint (K8), doc_id provenance (K1/K2)",
              "every element constant is dispatched and every executable-content region is closed with the tag it was opened with; allowed-parent tables are "
              "sibling-consistent; names are compared through local_name() only; raw document slices pass an unescape before being stored; doc ids are drawn once "
-             "per declaration in the start handler; a forward-referenced state receives the declaration's parameters; the XML parser is given an unmodified copy of the buffer that element text is cut out of.",
+             "per declaration in the start handler; a forward-referenced state receives the declaration's parameters; the XML parser is given an unmodified copy of the buffer that element text is cut out of; <xi:include> saves and restores the reader fields the nested read overwrites.",
              "that the model mirrors the document for every document and rendering (an input/output equivalence over an infinite language).", "§5 C04"),
     "C05": C("WIRE: symbolic walk of every FsmWriter function and its FsmReader sibling into annotated operation sequences (K4), flag-table mapping, field coverage (K11), primitive tables and bit budgets (K4/K8)",
              "the 23 writer/reader pairs define the same wire grammar (operation kinds, model fields, loops, presence guards through the flag bits); the "
              "executable-content and Data variant dispatch tables agree; every field of the 16 persisted structs is written and read (or exempt with a reason); "
-             "integer type nibbles, thresholds and byte counts agree; every value fits the bits of its encoding; the reader narrows no integer (struct fields and Data variant payloads).",
+             "integer type nibbles, thresholds and byte counts agree; every value fits the bits of its encoding (the guarding bound is a bound on the written value itself); the reader narrows no integer (struct fields and Data variant payloads).",
              "trace equality after reload (argued from identical persisted model + C02 determinism); Data values (delegated to to_string/parse).", "§5 C05"),
     "C06": C("custom HIR/MIR rules: dominance of history recording over removal (K2), filter and key provenance (K3), who-may-write historyValue (K1)",
              "history values are recorded from the configuration before anything is removed; deep/shallow filters and keys; the history branch of "
@@ -54,7 +54,7 @@ CHECKS = {
              "'exactly once' counts over event histories.", "§5 C07"),
     "C08": C("custom HIR rules: sibling agreement of executeContent loops (K4), branch polarity (K2), error-discipline fixpoint over fallible/raising summaries (K2)",
              "content runs in Vec order and stops at the first false; if/else polarity; every call to a fallible evaluation API reaches an error-event enqueue on its "
-             "Err path (or hands the Err on); assign writes only occupied writable entries; foreach sets item/index before the body and a false body ends it with false.",
+             "Err path (or hands the Err on); assign writes only occupied writable entries; foreach sets item/index before the body and a false body ends it with false; the reader never overwrites an If's else link.",
              "which branch runs for given data (values).", "§5 C08"),
     "C09": C("custom HIR/MIR rules: sibling agreement of the three In() implementations and two set_event tables (K4), read-only installation and deep read-only (K2/K3), dominance in interpret/enterStates (K2)",
              "In() tests the live configuration; the seven _event fields are fed from the matching Event fields; system variables are installed read-only and "
@@ -62,7 +62,7 @@ CHECKS = {
              "what _event holds at every evaluation point.", "§5 C09"),
     "C10": C("custom HIR rules with partial evaluation: priority/associativity tables extracted from the scan and tie-break (K4), operator dispatch tables (K4), numeric tower (K4), get_copy field coverage (K11)",
              "operator priority classes; grouping direction per class; each Operator variant maps to its own operation_*; Integer x Integer stays Integer with "
-             "saturating ops, mixed is Double, divide is Double; the 13 get_copy implementations rebuild every field; no field of an Expression node holds a shared handle or interior mutability; cache keys.",
+             "saturating ops, mixed is Double, divide is Double; each ordering operator compares with its own operator and delegates to no sibling; the 13 get_copy implementations rebuild every field; no field of an Expression node holds a shared handle or interior mutability; cache keys.",
              "the value of an arbitrary expression; whitespace independence of the lexer.", "§5 C10"),
     "C11": C("diverging-edge audit over the call-graph region (K5) with checked len-guard discharge and guard-count fingerprints; lock nesting from a MIR held-guard dataflow (K6); recursion SCCs; lexer un-read discipline (K2)",
              "every panic-capable edge reachable from the rfsm-expression entry points is a harmless class, structurally discharged, audited with a reason or a finding; "
@@ -75,7 +75,8 @@ CHECKS = {
              "liveness of arbitrary documents (an eventless loop is legal SCXML); host-supplied code.", "§5 C12"),
     "C13": C("custom HIR/MIR rules: single consumer and field ownership (K1), discarding-path enumeration in the dequeue loop (K2), thread-role reachability (K7), lock set at recv (K6)",
              "one consumer of the external queue; the only discarding path of the dequeue filter is the cancelled-child rule; the W3C procedures run on the session "
-             "thread only; the blocking wait holds only the receiver lock and no producer needs it.",
+             "thread only; the blocking wait holds only the receiver lock and no producer needs it; on the delivery path platform locks are taken with "
+             "lock(), never try_lock, and the channel is written with send().",
              "per-sender FIFO / exactly-once of std::sync::mpsc (assumed); anything quantifying over interleavings.", "§5 C13"),
     "C14": C("custom HIR/MIR rules: who-may-touch statesToInvoke/child_sessions (K1), ordering by MIR reachability (K2), provenance of finalize/autoforward targets (K3)",
              "statesToInvoke add/delete/clear sites and their order relative to the exit loop, the invoke loop and recv; child_sessions insert only on Ok, removal "
